@@ -109,7 +109,18 @@ func checkC07(c *Ctx) error {
 		}
 		// (a) hang
 		if v, m := q(e.PsiTerm(), smt.Not(e.Returned(0))); v == smt.Sat {
-			ic.report(map[string]string{"kind": "hang", "blocked": blockedSummary(ic, m), "has-error-result": fmt.Sprint(ic.Prog.HasErrRes)}, m, "hang")
+			sig := map[string]string{"kind": "hang", "blocked": blockedSummary(ic, m), "has-error-result": fmt.Sprint(ic.Prog.HasErrRes)}
+			ic.report(sig, m, "hang")
+			// one model per query would let a listed finding mask another hang of the
+			// same injector: ask again for a final state in which some thread is parked
+			// at a site the matched finding does not mention
+			if c.MatchKnown(sig) != nil {
+				if other := parkedElsewhere(ic, sig["blocked"]); other != "" {
+					if v2, m2 := q(e.PsiTerm(), smt.Not(e.Returned(0)), other); v2 == smt.Sat {
+						ic.report(map[string]string{"kind": "hang", "blocked": blockedSummary(ic, m2), "has-error-result": fmt.Sprint(ic.Prog.HasErrRes)}, m2, "hang2")
+					}
+				}
+			}
 		} else if v == smt.Unknown {
 			c.Inconclusive("hang query unknown for " + ic.Name())
 		}
@@ -181,7 +192,42 @@ func checkC08(c *Ctx) error {
 						}
 					}
 				}
-				ic.report(map[string]string{"kind": "parked-goroutine", "parked-at": blockedSummary(ic, m), "main-returned-at": r.Ev.Site, "group-ctx-cancelled": groupCancelled, "caller-cancelled": m["cancelled"]}, m, "leak")
+				sig := map[string]string{"kind": "parked-goroutine", "parked-at": blockedSummary(ic, m), "main-returned-at": r.Ev.Site, "group-ctx-cancelled": groupCancelled, "caller-cancelled": m["cancelled"]}
+				ic.report(sig, m, "leak")
+				if c.MatchKnown(sig) != nil {
+					// look past the listed finding: a goroutine parked at another kind of site,
+					// or parked although the group context was cancelled or the caller cancelled
+					var alts []string
+					if other := parkedElsewhere(ic, sig["parked-at"]); other != "" {
+						alts = append(alts, other)
+					}
+					var failedRet []string
+					for g := 1; g < e.Threads; g++ {
+						for _, rt := range e.Rets[g] {
+							if rt.Ev.Err != "Nil" {
+								failedRet = append(failedRet, rt.X)
+							}
+						}
+					}
+					if len(failedRet) > 0 {
+						alts = append(alts, smt.Or(failedRet...))
+					}
+					alts = append(alts, "cancelled")
+					c.mu.Lock()
+					queries++
+					c.mu.Unlock()
+					if v2, m2 := ic.Query(true, r.X, e.PsiTerm(), fmt.Sprintf("(=> cancelled (< T_cancel %s))", r.C), smt.Or(parked...), smt.Or(alts...)); v2 == smt.Sat {
+						gc := "false"
+						for g := 1; g < e.Threads; g++ {
+							for _, rt := range e.Rets[g] {
+								if rt.Ev.Err != "Nil" && m2[rt.X] == "true" {
+									gc = "true"
+								}
+							}
+						}
+						ic.report(map[string]string{"kind": "parked-goroutine", "parked-at": blockedSummary(ic, m2), "main-returned-at": r.Ev.Site, "group-ctx-cancelled": gc, "caller-cancelled": m2["cancelled"]}, m2, "leak2")
+					}
+				}
 			} else if v == smt.Unknown {
 				c.Inconclusive("leak query unknown for " + ic.Name())
 			}
@@ -279,4 +325,25 @@ func checkC05(c *Ctx) error {
 	c.Coverage["async_input_free_sets"] = sets
 	c.Coverage["environment"] = "existential: a schedule must exist (sat is the good answer); no failure, no cancellation"
 	return nil
+}
+
+// parkedElsewhere returns a constraint saying that some thread is parked at a
+// blocking site whose description does not occur in knownSites ("" if every
+// blocking site of the injector is already named there).
+func parkedElsewhere(ic *InjCase, knownSites string) string {
+	var ts []string
+	for _, n := range ic.Enc.BlockingNodes() {
+		who := "main"
+		if n.Thread > 0 {
+			who = "goroutine"
+		}
+		if strings.Contains(knownSites, who+":"+n.Ev.Site) {
+			continue
+		}
+		ts = append(ts, ic.Enc.Parked(n))
+	}
+	if len(ts) == 0 {
+		return ""
+	}
+	return smt.Or(ts...)
 }
